@@ -184,6 +184,12 @@ def insertion_cases():
                alt=lambda t, c: t['entries'].append(('loop', ['_n1', '_n2'], [])))
         mk('unterminated-quote', ["_uq 'abc def"], CIF_MISSING_ENDQUOTE, lambda t, c: set_item(t, '_uq', q('abc def')))
         mk('unterminated-dquote', ['_uq "abc'], CIF_MISSING_ENDQUOTE, lambda t, c: set_item(t, '_uq', q('abc')))
+        if at_end:
+            # the input ends inside the string: the closing delimiter is assumed at the end of the input
+            mk('unterminated-quote-at-end-of-input', ["_uq 'abc def"], CIF_MISSING_ENDQUOTE, lambda t, c: set_item(t, '_uq', q('abc def')), final_newline=False)
+            mk('unterminated-dquote-at-end-of-input', ['_uq "a'], CIF_MISSING_ENDQUOTE, lambda t, c: set_item(t, '_uq', q('a')), final_newline=False)
+            mk('unterminated-quote-ending-a-loop-at-end-of-input', ['loop_', '_n1', '_n2', '1 2', '3 "xy'], CIF_MISSING_ENDQUOTE,
+               lambda t, c: t['entries'].append(('loop', ['_n1', '_n2'], [[u('1'), u('2')], [u('3'), q('xy')]])), final_newline=False)
         mk('missing-space-after-quote', ["_m1 'x'_m2 y"], CIF_MISSING_SPACE,
            lambda t, c: (set_item(t, '_m1', q('x')), set_item(t, '_m2', u('y'))))
         mk('missing-space-in-list', ["_m3 ['a''b']"], CIF_MISSING_SPACE, lambda t, c: set_item(t, '_m3', ('list', (q('a'), q('b')))))
